@@ -9,7 +9,25 @@ fn bits_eq(a: &[f64], b: &[f64]) -> bool {
 
 fn corrupt(rng: &mut Rng, line: &str) -> (String, &'static str) {
     let with_times = |rng: &mut Rng, a: &str, b: &str| format!("{} {} {}", a, b, line);
-    match rng.below(16) {
+    // a multi-byte character put inside the (ASCII) label text at a byte offset around 64 or anywhere: whatever a
+    // reporting path does with byte offsets of the offending line must respect character boundaries (seeded change C17h)
+    let inject = |rng: &mut Rng, l: &str| -> String {
+        let ch = *rng.pick(&["盆", "é", "😀", "栽"]);
+        let lo = if rng.chance(0.7) { 40usize.min(l.len()) } else { 0 };
+        let hi = if lo > 0 { 80usize.min(l.len()) } else { l.len() };
+        let at = if hi > lo { rng.range(lo, hi) } else { lo };
+        let mut s = String::with_capacity(l.len() + 8);
+        s.push_str(&l[..at]);
+        s.push_str(ch);
+        if rng.chance(0.5) { s.push_str(ch); }
+        s.push_str(&l[at..]);
+        s
+    };
+    match rng.below(20) {
+        16 => { let t = *rng.pick(&["0", "100", "12345678", "1e3"]); let u = inject(rng, line); (format!("{} {}", t, u), "two-tokens-long-unicode") }
+        17 => { let u = inject(rng, line); (format!("0 100 {}", u), "times-unicode-label") }
+        18 => { let u = inject(rng, line); (u, "unicode-inside") }
+        19 => { let u = inject(rng, line); (format!("{} 100", u), "unicode-label-then-token") }
         0 => (with_times(rng, "0", "1000000"), "valid-times"),
         1 => (format!("0 1000000"), "two-tokens"),
         2 => (with_times(rng, "abc", "100"), "bad-start"),
